@@ -367,7 +367,7 @@ func (c15pcap) Gen(rng *rand.Rand, tier string) []Case {
 					case 0:
 						v = 0
 					case 1:
-						v = 0xffffffff
+						v = 1 << 20 // large, but the zero-copy reader allocates a buffer of this size
 					case 2:
 						v = uint32(rng.Intn(16))
 					default:
